@@ -49,11 +49,15 @@ def run(F, R):
     s1_selector(F, R, roles, h12, h10)
     s2_send(F, R, M, roles, h12, h10)
     s3_receive(F, R, roles, h12, h10)
+    s7_tx_length(F, R, roles, h12, h10)
     s4_custody(F, R, M, roles)
     # S5: a completion is consumed for the buffer the caller posted: wherever the network drivers complete a receive or
     # transmit with a token read from the used ring, the buffer is looked up by that token (shared with C07.T5)
     from .C07 import t5_token_provenance
     t5_token_provenance(F, R, M, rule='S5', only=lambda bb: 'device::net' in bb['id'])
+    # S6: the receive / transmit queues run in the negotiated modes (C08.H3)
+    from .C08 import queue_modes_rule
+    queue_modes_rule(F, R, M, 'S6', ['device::net'])
 
 
 def sizeofs(t):
@@ -208,6 +212,64 @@ def is_default(v):
     return False
 
 
+def s7_tx_length(F, R, roles, h12, h10):
+    """A frame to transmit is refused exactly when it is shorter than the header of the negotiated form: the length test of
+    the transmit path is folded over lengths around both header sizes."""
+    n = 0
+    for b in F.bodies.values():
+        if not F.handwritten(b) or b['kind'] != 'AssocFn' or b.get('impl_adt') != RAW or b.get('pub'):
+            continue
+        fn = b
+        slices = [i + 1 for i, l in enumerate(fn['locals'][1:fn['arg_count'] + 1]) if l['ty'].endswith('[u8]')]
+        if len(slices) != 1 or 'Result<()' not in b.get('sig', '').replace(' ', '').replace('core::result::', '') and '-> core::result::Result<(), ' not in b.get('sig', ''):
+            continue
+        if not any(bl['term']['k'] == 'call' and bl['term'].get('fn') == 'core::mem::size_of' and (bl['term'].get('substs') or [''])[0] in (h12, h10) for bl in b['blocks']):
+            continue
+        sg = supergraph(F, b['id'], opaque=lambda t, bb: bb['id'] in roles or has_loop(bb), tag='c16')
+        try:
+            paths = PathEnum(sg).run()
+        except PathLimit:
+            continue
+        n += 1
+        bad = None
+        rows = 0
+        for legacy in (0, 1):
+            hs = 10 if legacy else 12
+            for L in (0, 1, 9, 10, 11, 12, 13, 64, 1514):
+                def leaf(t, legacy=legacy, L=L):
+                    if t[0] in ('load0', 'load') and t[1][2] and t[1][2][-1][0] == 'f' and 'legacy' in t[1][2][-1][1]:
+                        return legacy
+                    if t[0] == 'param' and fn['locals'][t[1]]['ty'] == 'bool':
+                        return legacy
+                    if t[0] == 'call' and t[2].endswith('::len'):
+                        return L
+                    if 'log::' in fmt(t):
+                        return 0
+                    raise Unfoldable(fmt(t)[:80])
+                fo = Folder(leaf)
+                try:
+                    hit = [p for p in paths if not p.panicked and path_holds(fo, p)]
+                except Unfoldable as e:
+                    bad = 'unfoldable: %s' % e
+                    break
+                rows += 1
+                if len(hit) != 1:
+                    bad = 'legacy=%d length %d: %d feasible paths' % (legacy, L, len(hit))
+                    break
+                ok_ret = err_variant(hit[0].ret) == 'Ok'
+                if ok_ret != (L >= hs):
+                    bad = 'a %d-byte transmit buffer with the %d-byte header form is %s' % (L, hs, 'accepted' if ok_ret else 'refused')
+                    break
+            if bad:
+                break
+        R.tables += rows
+        if bad and bad.startswith('unfoldable'):
+            R.abstain('S7', b['id'], bad, fn_site(F, b['id']))
+            continue
+        R.check(bad is None, 'S7', '%s:tx-length' % b['id'], fn_site(F, b['id']), 'accepted iff length >= header size (%d rows)' % rows, 'transmit length test: %s' % bad)
+    R.count('tx_length_tests', n)
+
+
 def s3_receive(F, R, roles, h12, h10):
     for b in F.bodies.values():
         if b.get('impl_adt') != RAW or b['name'] != 'receive_complete':
@@ -293,6 +355,14 @@ def s4_custody(F, R, M, roles, rule='S4', only=None):
                                 if x[0] in ('load', 'load0') and x[1][2] and x[1][2][-1][0] == 'f':
                                     cmp_ = x[1][2][-1][1]
                 idx_field = idx_field or cmp_
+                # ... and the Ok path lies on the *equal* edge of that comparison
+                for disc, (kind, vals), _ in p.conds:
+                    d = disc
+                    if d[0] == 'bin' and d[1] in ('Ne', 'Eq') and peeks and derives_from(d, lambda x: x[0] == 'call' and x[1] == peeks[0][1]):
+                        truth = (kind == 'notin' and 0 in vals) or (kind == 'in' and 0 not in vals)
+                        if (d[1] == 'Ne' and truth) or (d[1] == 'Eq' and not truth):
+                            cmp_ = None
+                            det_pol = True
                 slot_ok = bool(takes) and peeks and any(derives_from(e[3][0], lambda x: x[0] == 'call' and x[1] == peeks[0][1]) for e in takes)
                 pop_ok = bool(pops) and peeks and derives_from(pops[0][3][1], lambda x: x[0] == 'call' and x[1] == peeks[0][1])
                 if not (slot_ok and pop_ok and cmp_):
@@ -311,6 +381,16 @@ def s4_custody(F, R, M, roles, rule='S4', only=None):
                       and any(pp[0] == 'idx' for x in subterms(e[3][0]) if x[0] == 'loc' for pp in x[2])]
                 if not tk or min(tk) > pk[0]:
                     late = 'a path returning %s consumes the completion %s' % (err_variant(p.ret), 'before the slot is vacated' if tk else 'and never vacates the slot')
+            # the length the caller sees is this completion's: every Ok path stores a value derived from the pop_used result
+            # into the returned buffer (a recycled buffer otherwise keeps the length of the frame it carried before)
+            stale = None
+            for p in okp:
+                pops_ = [e for e in p.effects if e[0] == 'call' and roles.get(e[2]) == 'pop_used']
+                sets = [e for e in p.effects if e[0] == 'store' and pops_ and derives_from(e[3], lambda x: x[0] == 'call' and x[1] == pops_[0][1])]
+                if pops_ and not sets:
+                    stale = 'a successful path returns the buffer without recording the received length'
+            R.check(stale is None, rule, '%s:length-recorded' % b['id'], where, 'every Ok path records the length derived from the used length',
+                    'receive: %s (e.g. only when it is non-zero): the buffer then reports the length of an earlier frame' % stale)
             R.check(late is None, rule, '%s:slot-vacated-before-pop' % b['id'], where, 'the in-flight slot is taken before pop_used on every consuming path',
                     'receive: %s; if the pop succeeds but receive then fails, the slot still claims the id is in flight and a repeated '
                     'used id releases the descriptor a second time' % late)
@@ -335,13 +415,48 @@ def s4_custody(F, R, M, roles, rule='S4', only=None):
                 if not adds or not slot or (idx_field and not rec):
                     good = False
                     det = 'add performed=%s, buffer stored in the slot of the new token=%s, token recorded in `%s`=%s' % (bool(adds), bool(slot), idx_field, bool(rec))
+                # the slot of the new token must be *empty* on the storing path (an occupied slot means the token is already in
+                # flight): is_some(slot) false / is_none(slot) true / discriminant None
+                for disc, (kind, vals), _ in p.conds:
+                    d = disc
+                    truth = (kind == 'notin' and 0 in vals) or (kind == 'in' and 0 not in vals)
+                    if d[0] == 'call' and d[2].rsplit('::', 1)[-1] in ('is_some', 'is_none') and adds and derives_from(d, lambda x: x[0] == 'call' and x[1] == adds[0][1]):
+                        occupied = truth if d[2].endswith('is_some') else not truth
+                        if occupied:
+                            good = False
+                            det = 'the buffer is stored on the path where the slot of the new token is already occupied (and refused when it is free)'
             R.check(good, rule, '%s:store-by-new-token' % b['id'], where, 'recycled buffer stored in the slot of the new token, which is recorded in `%s`' % idx_field,
                     'recycle_rx_buffer breaks the token <-> buffer mapping that receive() relies on: %s' % det)
         if b['name'] == 'can_recv' and not only:
             sg = supergraph(F, b['id'], opaque=opq, tag='c16')
             paths = [p for p in PathEnum(sg).run() if not p.panicked]
             ok = all(p.ret is not None and derives_from(p.ret, lambda x: x[0] == 'call' and roles.get(x[2]) == 'peek_used') for p in paths) and bool(paths)
-            R.check(ok, rule, '%s:readiness' % b['id'], fn_site(F, b['id']), 'can_recv derives from peek_used', 'can_recv does not reflect the used ring')
+            # folded: true exactly when peek_used yields Some
+            pol = None
+            for some in (0, 1):
+                def leaf(t, some=some):
+                    t_ = t
+                    if t_[0] == 'discr':
+                        t_ = t_[1]
+                    if t_[0] == 'call' and roles.get(t_[2]) == 'peek_used':
+                        return some
+                    if t[0] == 'call' and t[2].rsplit('::', 1)[-1] in ('is_some', 'is_none') and t[3]:
+                        inner = strip_ptr(t[3][0])
+                        v_ = local_value_of_ref(sg.sym, inner) if inner[0] == 'ref' else inner
+                        if v_ is not None and v_[0] == 'call' and roles.get(v_[2]) == 'peek_used':
+                            return some if t[2].endswith('is_some') else 1 - some
+                    raise Unfoldable(fmt(t)[:60])
+                fo = Folder(leaf)
+                try:
+                    hit = [p for p in paths if path_holds(fo, p)]
+                    got = fo.ev(hit[0].ret) if len(hit) == 1 else None
+                except Unfoldable:
+                    got = None
+                    ok = ok and False
+                if got is not None and bool(got) != bool(some):
+                    pol = 'reports %s when the used ring %s a completed buffer' % ('ready' if got else 'not ready', 'holds' if some else 'does not hold')
+            R.check(ok and pol is None, rule, '%s:readiness' % b['id'], fn_site(F, b['id']), 'can_recv is true exactly when peek_used yields a token',
+                    'can_recv does not reflect the used ring: %s' % (pol or 'it does not derive from peek_used'))
     for b in F.bodies.values():
         if b.get('impl_adt') == RAW and b['name'] == 'can_send' and not only:
             sg = supergraph(F, b['id'], opaque=opq, tag='c16')
